@@ -1223,8 +1223,97 @@ fn c12_compression_record_unchecked(dir: PathBuf) -> ScenFut<'static> {
     })
 }
 
+/// A compaction round is parked at one of its yield points; meanwhile a reader begins, the key
+/// it sees is overwritten and the new version is flushed; the round is released; the reader
+/// reads again. One run per gate.
+fn c01_compaction_paused(dir: PathBuf) -> ScenFut<'static> {
+    Box::pin(async move {
+        let res = std::thread::spawn(move || -> Result<(), String> {
+            let rt = tokio::runtime::Builder::new_multi_thread().worker_threads(4).enable_all().build().map_err(|e| e.to_string())?;
+            rt.block_on(async move {
+                for gate_name in ["compact.after_snapshots", "compact.before_manifest", "compact.before_cleanup"] {
+                    for second_round in [false, true] {
+                        let d = dir.join(format!("{}-{}", gate_name.replace('.', "_"), second_round));
+                        let t = std::sync::Arc::new(c01_cfg().open(&d).map_err(|e| e.to_string())?);
+                        put(&t, &[(b"k", b"v1"), (b"j", b"w1")]).await?;
+                        t.verif_flush().map_err(|e| e.to_string())?;
+                        put(&t, &[(b"j", b"w2")]).await?;
+                        t.verif_flush().map_err(|e| e.to_string())?;
+                        let ctl = crate::e3::ctl();
+                        ctl.reset();
+                        let gate = ctl.arm_gate(gate_name);
+                        let tc = t.clone();
+                        let h1 = tokio::runtime::Handle::current();
+                        let comp = std::thread::spawn(move || {
+                            let _g = h1.enter();
+                            tc.verif_compact_once().map_err(|e| e.to_string())
+                        });
+                        if !gate.wait_parked(5000) {
+                            gate.release();
+                            let _ = comp.join();
+                            ctl.reset();
+                            return Err(format!("harness: no compaction round reached {}", gate_name));
+                        }
+                        // while the round is parked: reader begins, k is overwritten and flushed
+                        let r = t.begin_with_mode(Mode::ReadOnly).map_err(|e| e.to_string())?;
+                        let h = r.verif_start_seq();
+                        let first = r.get(&b"k"[..]).map_err(|e| e.to_string())?;
+                        put(&t, &[(b"k", b"v2")]).await?;
+                        // the flush needs the manifest lock, which a round parked after its table
+                        // pick may hold: issue it from a helper thread and do not wait for it
+                        let tf = t.clone();
+                        let h2 = tokio::runtime::Handle::current();
+                        let fl = std::thread::spawn(move || {
+                            let _g = h2.enter();
+                            tf.verif_flush().map_err(|e| e.to_string())
+                        });
+                        std::thread::sleep(std::time::Duration::from_millis(30));
+                        gate.release();
+                        comp.join().map_err(|_| "compaction thread panicked".to_string())??;
+                        fl.join().map_err(|_| "flush thread panicked".to_string())??;
+                        ctl.reset();
+                        if second_round {
+                            compact_all(&t).await?;
+                        }
+                        let again = r.get(&b"k"[..]).map_err(|e| e.to_string())?;
+                        let mut it = r.range(&b"a"[..], &b"z"[..]).map_err(|e| e.to_string())?;
+                        let scan = collect_fwd(&mut it)?;
+                        drop(it);
+                        drop(r);
+                        if let Ok(t) = std::sync::Arc::try_unwrap(t) {
+                            close(t).await;
+                        }
+                        let show = |v: &Option<Vec<u8>>| v.as_ref().map(|b| String::from_utf8_lossy(b).to_string());
+                        if first.as_deref() != Some(&b"v1"[..]) || again.as_deref() != Some(&b"v1"[..]) || scan != vec![b"j".to_vec(), b"k".to_vec()] {
+                            return Err(format!(
+                                "compaction round parked at {}; a reader begins (horizon {}) and reads k = {:?}; k is overwritten and flushed; the round resumes{}; the reader now reads k = {:?}, scan lists {:?}; expected v1 and [j, k]",
+                                gate_name,
+                                h,
+                                show(&first),
+                                if second_round { ", further rounds run" } else { "" },
+                                show(&again),
+                                scan.iter().map(|k| String::from_utf8_lossy(k).to_string()).collect::<Vec<_>>()
+                            ));
+                        }
+                    }
+                }
+                Ok(())
+            })
+        })
+        .join()
+        .map_err(|_| "scenario thread panicked".to_string())?;
+        res
+    })
+}
+
 pub fn all() -> Vec<Scenario> {
     vec![
+        Scenario {
+            id: "C01-compaction-paused-reader-begins",
+            property: "C01",
+            title: "compaction round parked at each of its yield points while a reader begins and its key is overwritten and flushed",
+            run: c01_compaction_paused,
+        },
         Scenario {
             id: "C12-damaged-first-header",
             property: "C12",
